@@ -330,3 +330,47 @@ def run(ctx):
     r12_3(ctx)
     r12_4(ctx)
     r12_5(ctx)
+    r12_6(ctx)
+
+
+# per-token state the "same code as another configuration" key must cover; one line of reason each (confirmed on the pinned tree)
+PURGE_KEY = {
+    'Token::str': 'the token text',
+    'Token::varId': 'which declaration a name is bound to',
+    'Token::tokType': 'the classification the checks branch on',
+    'Token::flags': 'signedness, long-ness and attributes live only in the flag word after simplifyTokens1 (unsigned int -> int + fIsUnsigned)',
+    'Token::originalName': 'the spelling of a simplified typedef / type name',
+}
+
+
+def r12_6(ctx):
+    """R12.6  a configuration is skipped as "same code as an earlier one" only on a key that covers the per-token state the analysis reads: the key function
+    (the calculateHash the configuration loop calls on the token list) reads, for every token, each accessor of the table PURGE_KEY.  Dropping one makes two
+    configurations that differ only in that state collide, and the second one - with the code only it enables - is analysed in no configuration."""
+    F = ctx.facts
+    ctx.rule('R12.6', 'the key of the duplicate-configuration purge covers text, binding, classification, flags and original name of every token')
+    f = F.one('CppCheck::checkInternal')
+    body = F.body(f)['body']
+    keyfns = []
+    for x in walk(body):
+        if x.get('k') == 'CXXMemberCallExpr' and (x.get('fn') or '').endswith('::calculateHash') and 'TokenList' in (x.get('fn') or ''):
+            keyfns += [g for g in F.resolve(f, x['fid']) if F.body(g) is not None]
+    if not keyfns:
+        raise AnalysisBroken('CppCheck::checkInternal: no call of TokenList::calculateHash (duplicate-configuration key) found')
+    g = keyfns[0]
+    reach = F.reachable([g])
+    called = set()
+    for k, (h, _, _) in reach.items():
+        if not h['file'].startswith('lib/'):
+            continue
+        b = F.body(h)
+        if b is None:
+            continue
+        for y in walk(b['body']):
+            if y.get('k') == 'CXXMemberCallExpr' and (y.get('fn') or '').startswith('Token::'):
+                called.add(y['fn'])
+    for acc, why in sorted(PURGE_KEY.items()):
+        ok = acc in called
+        ctx.ob('R12.6', 'purge-key:%s' % acc.split('::')[-1], ok, ('%s reads %s of every token' % (g['name'], acc)) if ok else
+               ('%s, the key on which CppCheck::checkInternal skips a configuration as a duplicate, no longer reads %s (%s): two configurations that differ only there collide '
+                'and the second one is analysed in no configuration' % (g['name'], acc, why)), '%s:%s' % (g['file'], g['line']))
